@@ -74,9 +74,120 @@ def text_to_args(run):
   run.aux["text_to_args_cases_enumerated"] = n
 
 
+# ---- symbolic argument tokens: safe_eval.GetArg executed on a z3 string (engine B) --------------------------------------
+ALPHABET = "abcdefghijklmnopqrstuvwxyzTFN0123456789_.+-eE'\""
+MAXLEN = 8
+
+
+def validate_builtin_contracts(run, rng):
+  """the regular languages assumed for int()/float() agree with the real builtins on strings over the alphabet"""
+  import z3
+  from .. import pysym
+  import itertools
+  chars = "0123456789+-._eEnaif'T"
+  samples = ["".join(p) for n in (1, 2, 3) for p in itertools.product("019+-._eE", repeat=n)]
+  samples += ["".join(rng.choice(list(chars), size=rng.randint(1, 8))) for _ in range(1500)]
+  samples += ["inf", "-inf", "nan", "Infinity", "1e5", "1E-3", "+.5", "5.", "1_0", "_1", "1_", "1__0", "1e", ".", "-", "+", "e5", "0x10", "1.5e+3", "1.e2"]
+  bad = []
+  s = z3.String("s")
+  for text in samples:
+    def acc(fn):
+      try:
+        fn(text)
+        return True
+      except ValueError:
+        return False
+    for name, fn, re_ in (("int", int, pysym.PY_INT_RE), ("float", float, pysym.PY_FLOAT_RE)):
+      want = acc(fn)
+      got = z3.is_true(z3.simplify(z3.InRe(z3.StringVal(text), re_)))
+      if want != got:
+        bad.append((name, text, want, got))
+  run.concrete_checks += len(samples) * 2
+  run.aux["builtin_contract_points"] = len(samples) * 2
+  if bad:
+    run.inconclusive_("the int()/float() acceptance contracts disagree with the builtins: %s" % bad[:5])
+
+
+def symbolic_getarg(run):
+  import importlib
+  import z3
+  from .. import pysym
+  se = importlib.import_module("qkeras.safe_eval")
+  s = z3.String("tok")
+  sigma = z3.Star(z3.Union(*[z3.Re(ch) for ch in ALPHABET]))
+  D = pysym.DIGIT
+  sign = z3.Option(z3.Union(z3.Re("-"), z3.Re("+")))
+  body = z3.Star(z3.Union(*[z3.Re(ch) for ch in "abcdefghijklmnopqrstuvwxyzTFN0123456789_.+-eE"]))
+  classes = {
+      "bool": z3.Union(z3.Re("True"), z3.Re("False")),
+      "int": z3.Concat(sign, z3.Plus(D)),
+      "float": z3.Concat(sign, z3.Union(z3.Concat(z3.Plus(D), z3.Re("."), z3.Star(D)), z3.Concat(z3.Re("."), z3.Plus(D))),
+                         z3.Option(z3.Concat(z3.Union(z3.Re("e"), z3.Re("E")), sign, z3.Plus(D)))),
+      "float_exp": z3.Concat(sign, z3.Plus(D), z3.Union(z3.Re("e"), z3.Re("E")), sign, z3.Plus(D)),
+      "none": z3.Re("None"),
+      "quoted": z3.Union(z3.Concat(z3.Re("'"), body, z3.Re("'")), z3.Concat(z3.Re('"'), body, z3.Re('"'))),
+  }
+  for cname, cre in classes.items():
+    base = [z3.InRe(s, sigma), z3.Length(s) <= MAXLEN, z3.Length(s) >= 1, z3.InRe(s, cre)]
+
+    def fn():
+      return se.GetArg(pysym.SymStr(s))
+    try:
+      with pysym.shadow(se, int=pysym.str_int, float=pysym.str_float):
+        paths, limits = pysym.explore(fn, base=base, max_paths=64)
+    except Exception as e:  # pylint: disable=broad-except
+      run.inconclusive_("symbolic execution of GetArg on class %s failed: %r" % (cname, e))
+      continue
+    for pc, why in limits:
+      run.inconclusive_("path limit in GetArg (%s): %s" % (cname, why))
+    for pi, (pc, res, facts) in enumerate(paths):
+      # expected result for the class (Python's own literal semantics)
+      if cname == "bool":
+        bad = z3.BoolVal(not isinstance(res, bool)) if not isinstance(res, bool) else ((s == z3.StringVal("True")) != z3.BoolVal(res))
+      elif cname == "int":
+        if isinstance(res, pysym.SymInt):
+          digits = z3.If(z3.Or(z3.PrefixOf("-", s), z3.PrefixOf("+", s)), z3.SubString(s, 1, z3.Length(s) - 1), s)
+          want = z3.If(z3.PrefixOf("-", s), -z3.StrToInt(digits), z3.StrToInt(digits))
+          bad = res.e != want
+        else:
+          bad = z3.BoolVal(True)
+      elif cname in ("float", "float_exp"):
+        bad = z3.BoolVal(not (isinstance(res, pysym.SymFloatOf) and res.s.e.eq(s)))
+      elif cname == "none":
+        bad = z3.BoolVal(res is not None)
+      else:
+        bad = (res.e != z3.SubString(s, 1, z3.Length(s) - 2)) if isinstance(res, pysym.SymStr) else z3.BoolVal(True)
+      v, model = harness.z3_query(run, "getarg_%s_p%d" % (cname, pi), list(pc), [bad], dict(clause="getarg_symbolic", token_class=cname))
+      if v == "sat":
+        sol = z3.Solver()
+        sol.add(*pc)
+        sol.add(bad)
+        sol.check()
+        tok = sol.model().eval(s, model_completion=True).as_string()
+        rep = dict(clause="getarg_symbolic", token=tok, token_class=cname)
+        ok, detail = replay_concrete(rep)
+        if ok:
+          run.violation(dict(clause="getarg_symbolic", token_class=cname), detail, rep)
+        else:
+          run.inconclusive_("GetArg counterexample %r does not reproduce: %s" % (tok, detail))
+    run.configs.append("getarg:%s" % cname)
+
+
 def replay_concrete(rep):
   import importlib
   safe_eval = importlib.import_module("qkeras.safe_eval")
+  if rep["clause"] == "getarg_symbolic":
+    import ast
+    tok = rep["token"]
+    try:
+      got = safe_eval.GetArg(tok)
+    except Exception as e:  # pylint: disable=broad-except
+      return True, dict(token=tok, error=repr(e)[:200])
+    try:
+      want = ast.literal_eval(tok)
+    except Exception as e:  # pylint: disable=broad-except
+      return False, dict(token=tok, note="not a Python literal: %r" % (e,))
+    return not same_value(got, want), dict(token=tok, got=repr(got), python=repr(want))
   if rep["clause"] == "text_to_args_order":
     try:
       safe_eval.GetParams(rep["text"])
@@ -130,14 +241,25 @@ def run(tier, seed):
       r.inconclusive_("harness error on %s: %r" % (qz.cfg_str(cls, kw), e))
   c09_finish(r)
   text_to_args(r)
+  try:
+    validate_builtin_contracts(r, rng)
+    symbolic_getarg(r)
+  except Exception as e:  # pylint: disable=broad-except
+    import traceback
+    traceback.print_exc()
+    r.inconclusive_("symbolic GetArg part failed: %r" % (e,))
   obls = [o for o in r.obls if not o.twin]
   r.aux.update(programs=len(r.configs), equivalences_structural=sum(1 for o in obls if o.result is not None and o.result.solver == "hash-consing"),
                disagreements_checked=sum(1 for o in obls if o.result is not None and o.result.verdict == "sat"))
   r.functions = ["__str__ of all 14 registered quantizer classes", "get_quantizer (string branch) -> safe_eval.safe_eval/GetParams/GetArg",
                  "every quantizer's __call__ (original and re-parsed object are traced)"]
   r.bounds = ["str(q) direction: %d configurations of the C09 lattice; functional equality of q and get_quantizer(str(q)) for all inputs (as C09)" % len(cfgs),
-              "text -> arguments direction: NOT decided by a solver.  GetParams runs inside pyparsing's regex engine and CrossHair 0.0.110 aborts on "
-              "safe_eval.Str; a finite generated list of argument texts is compared with Python's own evaluation (auxiliary enumeration)",
+              "text -> arguments direction, per argument token: safe_eval.GetArg is executed on a z3 string (all paths): for every token of length <= %d "
+              "over the alphabet %r in the literal classes bool / int / float / None / quoted string the result is the Python literal's value "
+              "(int()/float() are acceptance contracts validated against the builtins)" % (MAXLEN, ALPHABET),
+              "text -> arguments direction, whole argument lists: NOT decided by a solver - GetParams splits the text inside pyparsing's regex engine; a "
+              "finite generated list of argument texts is compared with Python's own evaluation (auxiliary enumeration); number lists use the "
+              "library's own space-separated syntax and are only enumerated",
               "'never executes arbitrary code' is not a checked claim"]
   r.assumptions = ["K.learning_phase environment stub for stochastic configurations"]
   return r.finish("For every configuration the printed form is parsed back through the real get_quantizer/safe_eval; the original and the "
